@@ -291,7 +291,7 @@ pub fn run(ctx: &Ctx, out: &mut Out) {
         work.push((Kind::Token(*l), 32));
         work.push((Kind::Token(*l), 33 + (i % 32)));
     }
-    let reps = if ctx.thorough { 8 } else { 1 };
+    let reps = if ctx.thorough { 80 } else { 1 };
     let mut n = 0u64;
     'o: for _ in 0..reps {
         for (k, (kind, pl)) in work.iter().enumerate() {
